@@ -1,7 +1,7 @@
 (** C04 -- Extruder coordinate and extruded amounts are preserved outside regions. *)
 From Coq Require Import Reals String List Bool.
 From ER Require Import Base.Num Model.Geometry Model.Axis Model.Filter Spec.Printer
-  Proofs.FilterLemmas Proofs.Transparent Proofs.Deferred Proofs.Outputs Proofs.Track Proofs.FSync Proofs.Sync Proofs.MotionProps.
+  Proofs.FilterLemmas Proofs.Transparent Proofs.Deferred Proofs.Outputs Proofs.Track Proofs.FSync Proofs.Sync Proofs.MotionProps Proofs.Depth.
 Import ListNotations.
 Open Scope R_scope.
 
@@ -27,6 +27,14 @@ Proof. exact forwarded_move_same_start. Qed.
 Theorem C04_suppressed_pushes_nothing : forall g (m : icmd R) (F : printer R), run_outs g m F (outs m Suppress) = F.
 Proof. reflexivity. Qed.
 
+(** non-vacuity: the dialect predicates of the theorems above are met by a concrete program (print, retract, travel into
+    and out of the region area, recover, print) for any region set *)
+Theorem C04_premises_satisfiable : forall rs : list (region R),
+  wf_hist ex_cfg (mkSim (init_state rs) init_printer init_printer) ex_hist.
+Proof. intros rs. exact (proj1 (depth_premises_satisfiable rs)). Qed.
+
+
 Print Assumptions C04_e_preserved.
 Print Assumptions C04_forwarded_move_pushes_file_amount.
 Print Assumptions C04_suppressed_pushes_nothing.
+Print Assumptions C04_premises_satisfiable.
